@@ -38,4 +38,9 @@ BUILT["C18"] = dict(engine="parser-state-explorer", technique="explicit-state BF
                         "the reference's first invalidating token (exact for tokens wrong in themselves, lower bound otherwise) and must not change under 4 suffixes",
                    note=_PARSER_NOTE, design_ref="3 C18")
 
+BUILT["C04"] = dict(engine="parser-state-explorer", technique="explicit-state BFS accepted states + exhaustive products of quoting-edge values x slot kinds; print/re-parse/re-print oracle",
+                   text="every accepted word and every string of length <= 3/4 over a quoting alphabet (and every multi-line body of <= 2/3 lines) in every "
+                        "slot kind is serialised with tosieve(), re-parsed (tree equality) and re-serialised (byte fixed point)",
+                   note=_PARSER_NOTE, design_ref="3 C04")
+
 NOT_BUILT = {}
